@@ -239,3 +239,43 @@ Proof.
       replace (sp s - 3 - m + L) with (sp s4 - N.of_nat (N.to_nat (m - (L - 1))) + 1) by lia.
       rewrite <- (stack_vals_stack s s4) by congruence. exact HL5.
 Qed.
+
+(* the list predicate spelled out *)
+Lemma hlist_unfold h0 h p vs : hlist h0 h p vs <->
+  match vs with
+  | [] => allocated h p /\ ~ allocated h0 p /\ cell_at h p = VNil
+  | v :: vs' => exists a d, allocated h p /\ ~ allocated h0 p /\ cell_at h p = VPair a d /\
+                            helem h a v /\ hlist h0 h d vs'
+  end.
+Proof.
+  split.
+  - intros H. destruct H as [p A NA C|p a d v vs A NA C E H]; [split; [exact A|split; [exact NA|exact C]]|].
+    exists a, d. split; [exact A|]. split; [exact NA|]. split; [exact C|]. split; [exact E|exact H].
+  - destruct vs as [|v vs'].
+    + intros (A & NA & C). apply hl_nil; assumption.
+    + intros (a & d & A & NA & C & E & H). eapply hl_cons; eassumption.
+Qed.
+
+(* as one step of the real machine *)
+Theorem vararg_step_rest_list ob s0 s l m :
+  read_opcode s0 = ROk OVarArg s ->
+  cur_lambda s = ROk l s ->
+  1 <= len (l_args l) -> len (l_args l) - 1 <= m ->
+  m + 3 <= sp s -> sget s (sp s - 2) = VArgc m ->
+  sp s + 1 < scap s -> heap_inv (hp s) ->
+  let L := len (l_args l) in
+  let base := sp s - 3 - m in
+  exists p s',
+    run_one ob s0 = ROk false s' /\
+    sp s' = base + L + 3 /\ same_regs s s' /\
+    (forall j, j + 1 <= base + L -> sget s' j = sget s j) /\
+    sget s' (base + L) = VPtr p /\
+    sget s' (base + L + 1) = VArgc L /\
+    sget s' (base + L + 2) = sget s (sp s - 1) /\
+    sget s' (base + L + 3) = sget s (sp s) /\
+    heap_inv (hp s') /\ hext (hp s) (hp s') /\
+    hlist (hp s) (hp s') p (map (fun j => sget s (base + L + N.of_nat j)) (seq 0 (N.to_nat (m + 1 - L)))).
+Proof.
+  intros Hop Hcur HL Hreq Hsp Hargc Hcap HI L base. rewrite (run_one_vararg ob s0 s Hop).
+  exact (vararg_rest_list s l m Hcur HL Hreq Hsp Hargc Hcap HI).
+Qed.
